@@ -51,6 +51,7 @@ def showOut : Out → String
   | .badEtag => "badetag"
   | .noSuchItem => "nosuch"
   | .locked => "locked"
+  | .failed => "raise"
 
 def parseOut : List String → Option Out
   | ["ok", e] => some (.ok (fieldS e))
@@ -60,6 +61,7 @@ def parseOut : List String → Option Out
   | ["badetag"] => some .badEtag
   | ["nosuch"] => some .noSuchItem
   | ["locked"] => some .locked
+  | "raise" :: _ => some .failed
   | _ => none
 
 def showTree (t : Map String) : String := encPairs t.toList
@@ -182,6 +184,13 @@ def step (d : DState) (line : String) : DState × String :=
         else none
       | _ => none
     (d, s!"commits {d.model.commits.length} {head} | " ++ verdict v)
+  | ["wt"] =>
+    -- working-tree files of a tree store (names and tokens); monitor C09: worktree = contents
+    let out := "wt " ++ showTree d.model.worktree
+    let expect := "wt " ++ showTree d.spec
+    let v := if obsS.trimAscii.toString == expect then none
+      else some ("C09:working-tree-differs-from-index expected " ++ expect)
+    (d, out ++ " | " ++ verdict v)
   | ["restart"] =>
     ({ d with model := restart d.model }, "restart | ok")
   | [] => (d, "")
